@@ -107,6 +107,12 @@ Definition rkey_eqb (a b : rkey) : bool :=
   end.
 
 Inductive status := StCode (n : N) | StRange (c : N).
+
+(** the variadic operators a schema can be built with (VariadicOperator without Range: eval.rs builds a
+    VariadicOp value only in the branch where the operator is not Range) *)
+Inductive vop := OJoin | OAny | OSum.
+Definition vop_of (op : N) : option vop :=
+  match op with 0 => Some OJoin | 1 => Some OAny | 2 => Some OSum | _ => None end.
 Definition status_eqb (a b : status) : bool :=
   match a, b with StCode n, StCode m => N.eqb n m | StRange c, StRange d => N.eqb c d | _, _ => false end.
 
@@ -123,7 +129,7 @@ with sexpr :=
 | SUri (u : uri)
 | SArr (item : schema)
 | SObj (ps : list property)
-| SOp (op : N) (ss : list schema)
+| SOp (op : vop) (ss : list schema)
 | SRef (k : rkey)
 with property := Prop_ (name : str) (s : schema) (desc : option str) (req : option bool)
 with uri := Uri (path : list useg) (params : option (list property)) (example : option str)
@@ -170,7 +176,7 @@ Inductive value :=
 | VRanges (r : ranges)
 | VProp (p : property)
 | VPrim (e : sexpr)                          (* PrimInteger / PrimNumber / PrimString / PrimBoolean *)
-| VOp (op : N) (ss : list schema)
+| VOp (op : vop) (ss : list schema)
 | VRef (k : rkey) (v : value) (a : ymap)     (* Expr::Reference(ident, Box<(Expr, AnnRef)>) *)
 | VArr (item : schema)
 | VStr (s : str)
@@ -538,8 +544,12 @@ Section Eval.
             do (s1, rs) <- map_st (fun s o => do (s', v) <- ev0 s o; do r <- cast_ranges v; Ok (s', r)) s es;
             Ok (s1, (VRanges (fold_left (im_extend rgkey_eqb) rs []), ann))
           else
-            do (s1, ss) <- map_st (fun s o => do (s', v) <- ev0 s o; do sc <- cast_schema v; Ok (s', sc)) s es;
-            Ok (s1, (VOp op ss, ann))
+            match vop_of op with
+            | None => Panic P_node
+            | Some o =>
+                do (s1, ss) <- map_st (fun s o => do (s', v) <- ev0 s o; do sc <- cast_schema v; Ok (s', sc)) s es;
+                Ok (s1, (VOp o ss, ann))
+            end
       | ECont body metas =>
           do (s1, schema) <- opt_st (fun s b => do (s', v) <- ev0 s b; do sc <- cast_schema v; Ok (s', sc)) s body;
           let status0 := match schema with None => Some (StCode 204) | Some _ => None end in
